@@ -42,7 +42,7 @@ def _lemma_worker(args):
         from pyvc.verify import run_script
         name, script = m.LEMMAS[idx]
         contracts = {c.key: c for c in m.CONTRACTS}
-        rep = run_script(Repo(REPO_ROOT), contracts, prop_id, name, script, timeout_ms)
+        rep = run_script(Repo(REPO_ROOT), contracts, prop_id, name, script, timeout_ms, spec_funcs=getattr(m, "SPEC_FUNCS", None))
         return ("ok", rep, time.time() - t)
     except Exception as e:
         return ("crashed", f"{type(e).__name__}: {e}\n{traceback.format_exc()[-1500:]}", time.time() - t)
